@@ -14,6 +14,11 @@ Proof. vm_compute. reflexivity. Qed.
 Theorem C14_all_balanced_nested : forallb (fun p => balanced_at false (1, true) (snd p)) public_api = true.
 Proof. vm_compute. reflexivity. Qed.
 
+(* the hand-read meaning of Q_MUTEX_ENTER / Q_MUTEX_LEAVE (one level up after a successful trylock / one level down and
+   unlock) is valid for the macro texts that were reviewed; the translator compares the current texts with them *)
+Theorem C14_macros_as_reviewed : mutex_macros_reviewed = true.
+Proof. reflexivity. Qed.
+
 (* hence: on every path, success or failure, the operation ends by return/fall-through with the depth it started with *)
 Theorem C14_every_path : forall name body, In (name, body) public_api ->
   forall tr o a', exec body (0, false) tr o a' -> (o = Normal \/ o = Ret) /\ fst a' = 0.
